@@ -11,7 +11,8 @@
   orders, with the extra hypothesis "no PID is flagged when the iteration starts" for the
   current one.
 -/
-import PsutilModel.Proofs.C04Aux
+import PsutilModel.Proofs.C04Whole
+import PsutilModel.Proofs.C04Fine
 import PsutilModel.Model.C04Gen
 namespace Psutil.C04
 open Spec
@@ -817,6 +818,215 @@ example : SeqHist cfg (St.init k159)
 /-- …and the L19 history itself is sequential for the repaired order -/
 example : SeqHist { cfg with drainFirst := true } (St.init k159) histL19 :=
   seqHistB_sound _ _ _ (by decide)
+
+/-! ## `process_iter()` — one WHOLE iteration as one sentence (round 2) -/
+
+/-- what the statement says about one iteration, along the history `H` run from `s`, for the listing
+    `l`: the PIDs generator `g` yields are a subsequence of `l` (ascending, each at most once), and
+    every PID of `l` is accounted for — yielded, or absent from the process table at one of `g`'s
+    `next()` calls (`VanishedAt`), or still to be visited when `H` ends -/
+def IterationAccounted (c : Cfg) (s : St) (g : Nat) (l : List Nat) (H : List Op) : Prop :=
+  (yieldsOf c s g H).Sublist l
+  ∧ ∀ q ∈ l, q ∈ yieldsOf c s g H ∨ VanishedAt c g q s H
+      ∨ ∃ l', remaining (runAll c s H) g = some l' ∧ q ∈ l'
+
+/-- The completeness clause as ONE sentence about a whole iteration, at full strength for a
+    configuration `c`: from ANY reachable state, for a generator `g` (not started: `l` = all listed
+    PIDs ascending at its first `next()`; suspended: what it has still to visit) with valid `attrs`
+    free of reuse-checking names, and ANY continuation `h` of its first `next()` — other generators
+    advancing, the table changing inside and between calls, `cache_clear()`, `is_running()`,
+    `pids()`… — that does not close `g`. -/
+def C04_iteration_complete_Full (c : Cfg) : Prop :=
+  ∀ (s : St) (g : Nat) (gen : Gen) (l : List Nat) (mid0 : List KEv) (h : List Op),
+    Inv s → s.gens[g]? = some gen → ValidAttrs c gen.attrs → NoReuse c gen.attrs →
+    remaining s g = some l → Op.close g ∉ h →
+    IterationAccounted c s g l (.next g mid0 :: h)
+
+/-- **C04_iteration_complete** — full strength, overlapping generators included, for the repaired
+    prologue order. -/
+theorem C04_iteration_complete (c : Cfg) (hd : c.drainFirst = true) : C04_iteration_complete_Full c :=
+  fun s g gen l mid0 h hi hg hv hnr hl hnc =>
+    whole_iteration c s hi g gen hg (fun _ => Or.inl hd) hv hnr l hl mid0 h hnc
+
+/-- **C04_iteration_complete_partial** — the code as it is (either order): the same sentence whenever
+    the generator has already started, or no PID is flagged at the moment it starts (lead L19
+    otherwise, `C04_L19_counterexample`). -/
+theorem C04_iteration_complete_partial (s : St) (hi : Inv s) (g : Nat) (gen : Gen) (hg : s.gens[g]? = some gen)
+    (hfl : gen.st = .fresh → s.flagged = []) (hv : ValidAttrs cfg gen.attrs) (hnr : NoReuse cfg gen.attrs)
+    (l : List Nat) (hl : remaining s g = some l) (mid0 : List KEv) (h : List Op) (hnc : Op.close g ∉ h) :
+    IterationAccounted cfg s g l (.next g mid0 :: h) :=
+  whole_iteration cfg s hi g gen hg (fun hf => Or.inr (hfl hf)) hv hnr l hl mid0 h hnc
+
+/-- **C04_iteration_drained.** Once the generator has run to its end, every PID of the listing was
+    either yielded or found absent at one of its `next()` calls: "one Process per listed PID in
+    ascending order, skipping only processes that vanish while iterating". -/
+theorem C04_iteration_drained (c : Cfg) (s : St) (g : Nat) (l : List Nat) (H : List Op)
+    (hacc : IterationAccounted c s g l H) (hend : remaining (runAll c s H) g = some []) :
+    (yieldsOf c s g H).Sublist l ∧ ∀ q ∈ l, q ∈ yieldsOf c s g H ∨ VanishedAt c g q s H := by
+  refine ⟨hacc.1, fun q hq => ?_⟩
+  rcases hacc.2 q hq with h | h | ⟨l', h1, h2⟩
+  · exact Or.inl h
+  · exact Or.inr h
+  · rw [hend] at h1
+    simp only [Option.some.injEq] at h1
+    subst h1; cases h2
+
+/-- non-vacuity (current code): two overlapping generators over {1,5,9}; PID 5 exits inside `g0`'s second
+    `next()`, `g1` starts in between and still sees 5 listed but not there: both run to the end,
+    `g0` yields 1, 9 — 5 is accounted for as vanished at its second call -/
+example :
+    let H : List Op := [.next 0 [], .iter .none, .next 0 [.exit 5], .next 1 [], .next 0 [], .next 1 [], .next 1 []]
+    let s0 : St := (step cfg (St.init k159) (.iter .none)).1
+    yieldsOf cfg s0 0 H = [1, 9] ∧ yieldsOf cfg s0 1 H = [1, 9]
+      ∧ remaining (runAll cfg s0 H) 0 = some [] ∧ VanishedAt cfg 0 5 s0 H := by
+  refine ⟨by decide, by decide, by decide, ?_⟩
+  exact Or.inr (Or.inr (Or.inl ⟨[.exit 5], rfl, by decide⟩))
+
+/-! ## one thread at STATEMENT granularity against any environment (round 2)
+
+    `Model/C04Fine.lean`: the thread as a function of what it reads from the shared world — `_pmap` at
+    the instant of the copy, the table at the instant of the listing, the PIDs `_pids_reused.pop()`
+    handed to it, the world's answer at each `Process(pid)` / `as_dict`. The theorems hold for ALL
+    values read: any number of other threads doing anything between two statements of this one,
+    the table changing at any point (also between `add(pid)` and `as_dict`, between two skipped
+    PIDs). -/
+
+/-- **C04_fine_prologue_atomic.** Whatever happens between the copy, the listing and the pops, the
+    thread's private map and to-do list are those of the ATOMIC prologue (the one the history
+    machine runs, `prologue`) on the hybrid snapshot "table as listed, `_pmap` as copied, flagged =
+    what this thread popped". -/
+theorem C04_fine_prologue_atomic (c : Cfg) (rd : FReads) (hne : rd.listing ≠ []) :
+    (prologue c (hyb rd)).2 = some ((finePrologue c rd).1, (finePrologue c rd).2, sortNat rd.listing) :=
+  finePrologue_eq c rd hne
+
+/-- **C04_fine_safety.** For every value read and every sequence of answers (= every schedule of
+    any number of threads, every placement of table changes): the PIDs yielded are strictly
+    ascending and were all in the listing this thread took; each yielded object is either the one
+    `_pmap` held for that very PID at the instant of the copy — and then that PID was not handed to
+    this thread as recycled — or an object this thread created for that PID, which had no entry
+    left in its private map; and the only exceptions are IndexError (empty table), KeyError (only
+    with the unguarded `pop()`) and ValueError (an invalid name in `attrs`). -/
+theorem C04_fine_safety (c : Cfg) (rd : FReads) (invalid hasAttrs : Bool) (base : Nat) (ts : List FTouch)
+    (hk : rd.listing.Nodup) (hp : NodupKeys rd.copy) :
+    ((fineRun c rd invalid hasAttrs base ts).yields.map (·.1)).Pairwise (· < ·)
+    ∧ (∀ e ∈ (fineRun c rd invalid hasAttrs base ts).yields, e.1 ∈ rd.listing
+        ∧ ((rd.copy.get e.1 = some e.2 ∧ rd.popped.contains e.1 = false)
+            ∨ (e.2 = base + e.1 ∧ (finePrologue c rd).1.get e.1 = none)))
+    ∧ ((fineRun c rd invalid hasAttrs base ts).exc = none
+        ∨ ((fineRun c rd invalid hasAttrs base ts).exc = some "IndexError" ∧ rd.listing = [])
+        ∨ ((fineRun c rd invalid hasAttrs base ts).exc = some "KeyError" ∧ rd.popErr = true ∧ c.popGuarded = false)
+        ∨ ((fineRun c rd invalid hasAttrs base ts).exc = some "ValueError" ∧ hasAttrs = true ∧ invalid = true)) := by
+  unfold fineRun
+  by_cases he : rd.listing.isEmpty = true
+  · simp only [he, if_true]
+    exact ⟨by simp, by simp, Or.inr (Or.inl ⟨trivial, by simpa using he⟩)⟩
+  · have hne : rd.listing ≠ [] := by simpa using he
+    simp only [he, Bool.false_eq_true, if_false]
+    by_cases hpe : (rd.popErr && !c.popGuarded) = true
+    · simp only [hpe, if_true]
+      simp only [Bool.and_eq_true, Bool.not_eq_true'] at hpe
+      exact ⟨by simp, by simp, Or.inr (Or.inr (Or.inl ⟨trivial, hpe.1, hpe.2⟩))⟩
+    · simp only [hpe, Bool.false_eq_true, if_false]
+      obtain ⟨q1, q2, q3, q4, _⟩ := finePrologue_props c rd hne hk hp
+      obtain ⟨zs, h1, h2, h3, _, h5⟩ :=
+        fineLoop_res invalid hasAttrs base (finePrologue c rd).2 (finePrologue c rd).1 ts []
+      simp only [List.nil_append] at h1
+      refine ⟨?_, ?_, ?_⟩
+      · show (List.map (·.1) (fineLoop invalid hasAttrs base _ _ ts []).1).Pairwise (· < ·)
+        rw [h1]; exact List.Pairwise.sublist h2 q1
+      · intro e hy
+        have hy' : e ∈ zs := by rw [← h1]; exact hy
+        rcases h3 e hy' with hm | ⟨hm, hr⟩
+        · have hl := q2 e.1 (List.mem_map.mpr ⟨_, hm, rfl⟩)
+          have hg := (q4 _ hm).symm
+          obtain ⟨g1, g2, _⟩ := finePrologue_get c rd e.1 e.2 hg
+          exact ⟨hl, Or.inl ⟨g1, g2⟩⟩
+        · exact ⟨q2 e.1 (List.mem_map.mpr ⟨_, hm, rfl⟩), Or.inr ⟨hr, (q4 _ hm).symm⟩⟩
+      · rcases h5 with h | h
+        · exact Or.inl h
+        · exact Or.inr (Or.inr (Or.inr h))
+
+/-- **C04_fine_publish** (what this thread guarantees to the others). Whatever it read and was
+    answered, the map it stores into `_pmap` has one entry per key, only PIDs of its listing as
+    keys, and under PID `p` either the very object the copy held under `p` or the object this
+    thread created for `p` — never an object under another PID's key. Every writer of `_pmap` keeps
+    this, so every reader may rely on it: the circle closes for any number of threads. -/
+theorem C04_fine_publish (c : Cfg) (rd : FReads) (invalid hasAttrs : Bool) (base : Nat) (ts : List FTouch)
+    (hk : rd.listing.Nodup) (hp : NodupKeys rd.copy) (pm' : PMap)
+    (h : (fineRun c rd invalid hasAttrs base ts).published = some pm') :
+    ∀ e ∈ pm', e.1 ∈ rd.listing ∧ (rd.copy.get e.1 = some e.2 ∨ e.2 = base + e.1) := by
+  unfold fineRun at h
+  by_cases he : rd.listing.isEmpty = true
+  · simp [he] at h
+  · have hne : rd.listing ≠ [] := by simpa using he
+    simp only [he, Bool.false_eq_true, if_false] at h
+    by_cases hpe : (rd.popErr && !c.popGuarded) = true
+    · simp [hpe] at h
+    · simp only [hpe, Bool.false_eq_true, if_false, Option.some.injEq] at h
+      obtain ⟨_, q2, q3, _, _⟩ := finePrologue_props c rd hne hk hp
+      obtain ⟨zs, _, _, _, h4, _⟩ :=
+        fineLoop_res invalid hasAttrs base (finePrologue c rd).2 (finePrologue c rd).1 ts []
+      intro e hm
+      rw [← h] at hm
+      rcases h4 e hm with hm' | ⟨hm', hr⟩
+      · have hg := get_of_mem q3 hm'
+        obtain ⟨g1, _, g3⟩ := finePrologue_get c rd e.1 e.2 hg
+        exact ⟨g3, Or.inl g1⟩
+      · exact ⟨q2 e.1 (List.mem_map.mpr ⟨_, hm', rfl⟩), Or.inr hr⟩
+
+/-- **C04_fine_complete.** Completeness for every schedule: if the consumer runs the generator to
+    its end, every PID of the listing is yielded unless the world answered "no such process" when
+    the loop touched it (`Process(pid)` for a new PID, `as_dict` otherwise) — provided the prologue
+    drains `_pids_reused` first or this thread was handed no flagged PID (lead L19 otherwise). -/
+theorem C04_fine_complete (c : Cfg) (rd : FReads) (invalid hasAttrs : Bool) (base : Nat) (ts : List FTouch)
+    (hk : rd.listing.Nodup) (hp : NodupKeys rd.copy) (hne : rd.listing ≠ [])
+    (hd : c.drainFirst = true ∨ rd.popped = []) (hpe : rd.popErr = true → c.popGuarded = true)
+    (hv : (hasAttrs && invalid) = false) (hlen : (finePrologue c rd).2.length ≤ ts.length) :
+    ∀ q ∈ rd.listing, q ∈ (fineRun c rd invalid hasAttrs base ts).yields.map (·.1)
+      ∨ ∃ x ∈ (finePrologue c rd).2.zip ts, x.1.1 = q ∧ NspAnswer hasAttrs x := by
+  intro q hq
+  have he : rd.listing.isEmpty = false := by simpa using hne
+  have hpe' : (rd.popErr && !c.popGuarded) = false := by
+    cases h1 : rd.popErr with
+    | false => rfl
+    | true => simp [hpe h1]
+  obtain ⟨_, _, _, _, q5⟩ := finePrologue_props c rd hne hk hp
+  have hq' : q ∈ todoPids (finePrologue c rd).2 := by rw [q5 hd, mem_sortNat]; exact hq
+  obtain ⟨en, hen, heq⟩ := List.mem_map.mp hq'
+  obtain ⟨t, ht⟩ := mem_zip_of_mem_left _ ts en hen hlen
+  have := fineLoop_complete invalid hasAttrs base hv (finePrologue c rd).2 (finePrologue c rd).1 ts [] (en, t) ht
+  unfold fineRun
+  simp only [he, hpe', Bool.false_eq_true, if_false]
+  rcases this with h | h
+  · left; rw [← heq]; exact h
+  · right; exact ⟨(en, t), ht, heq, h⟩
+
+/-- the code as it is has the guarded `pop()`: no KeyError, whatever the other threads do -/
+theorem C04_fine_no_keyerror (rd : FReads) (invalid hasAttrs : Bool) (base : Nat) (ts : List FTouch) :
+    (fineRun cfg rd invalid hasAttrs base ts).exc ≠ some "KeyError" := by
+  unfold fineRun
+  have hg : cfg.popGuarded = true := by decide
+  split
+  · simp
+  · simp only [hg, Bool.not_true, Bool.and_false, Bool.false_eq_true, if_false]
+    obtain ⟨zs, _, _, _, _, h5⟩ :=
+      fineLoop_res invalid hasAttrs base (finePrologue cfg rd).2 (finePrologue cfg rd).1 ts []
+    rcases h5 with h | h
+    · show (fineLoop invalid hasAttrs base _ _ ts []).2.2 ≠ _
+      rw [h]; simp
+    · show (fineLoop invalid hasAttrs base _ _ ts []).2.2 ≠ _
+      rw [h.1]; decide
+
+/-- non-vacuity, and the interleaving the history machine cannot express: this thread copies `_pmap`
+    = {1↦0, 5↦1, 9↦2}; ANOTHER thread's `is_running()` flags 5 and a third thread's prologue pops it
+    (this thread is handed nothing); the table read is {1,5,7,9}; PID 7 exits between the listing and
+    `Process(7)`, PID 9 between `add` and `as_dict`: yields 1 and 5 (the cached objects), publishes
+    {1↦0, 5↦1} -/
+example :
+    fineRun cfg ⟨[(1, 0), (5, 1), (9, 2)], [9, 7, 5, 1], [], false⟩ false true 100
+      [⟨none, true⟩, ⟨none, true⟩, ⟨none, true⟩, ⟨none, false⟩]
+    = ⟨[(1, some 0), (5, some 1), (7, none), (9, some 2)], [(1, 0), (5, 1)], some [(1, 0), (5, 1)], none⟩ := by
+  decide
 
 /-- proof obligation on the translator's fact (fix 4d302c5 landed): the drain loop of `process_iter`
     survives `_pids_reused.pop()` on a set another thread emptied (so `C04_drain_guarded_safe`, not
